@@ -108,15 +108,19 @@ def run(ctx, rep):
             rep.machinery('ANCHOR-MISSING ' + name)
             continue
         d = Deps(fn)
-        ok = False
+        # every entry value built here (not just one of them) gets its position that way
+        built = 0
+        good = 0
         for bi in fn.reachable():
             for s in fn.blocks[bi]['stmts']:
                 if s['k'] == 'assign' and s['rv']['k'] == 'agg' and 'entry_pos' in s['rv'].get('fields', []):
+                    built += 1
                     o = s['rv']['ops'][s['rv']['fields'].index('entry_pos')]
                     toks = d.of_operand(o)
                     if any(tk[0] == 'call' and tk[1].endswith('::abs_pos') for tk in toks) and ('op', 'Sub') in toks and (
                             ('const', 32) in toks or any(tk[0] == 'constpath' and tk[1].endswith('DIR_ENTRY_SIZE') for tk in toks)):
-                        ok = True
+                        good += 1
+        ok = built > 0 and good == built
         rep.oblige('K3', name, ok=ok, nontrivial=True)
         if not ok:
             rep.violation('K3', vkey('K3', name, 'entry_pos', ''), fn.loc(fn.span),
